@@ -22,6 +22,9 @@ NODESC = desc()
 STRINGS = [
     ('""', ""), ('"a"', "a"), ('"a b,c#d"', "a b,c#d"), ('"\\""', '"'), ('"\\\\"', "\\"), ('"\\/"', "/"), ('"\\b\\f\\n\\r\\t"', "\b\f\n\r\t"),
     ('"\\u0041\\u00e9"', "Aé"), ('"\\u{41}"', "A"), ('"\\u{1F600}"', "\U0001F600"), ('"\\uD83D\\uDE00"', "\U0001F600"),
+    # characters that may stand RAW inside a quoted string: a horizontal tab (the one control character that is a SourceCharacter besides
+    # the line terminators), DEL, no-break space, the Unicode line / paragraph separators (no line terminators in GraphQL)
+    ('"col1\tcol2"', "col1\tcol2"), ('"\t"', "\t"), ('"a\x7fb"', "a\x7fb"), ('"nb\u00a0sp"', "nb\u00a0sp"), ('"ls\u2028ps\u2029x"', "ls\u2028ps\u2029x"),
     ('"é中\U0001F600"', "é中\U0001F600"), ('"\\u{0}x"', "\x00x"), ('"\\u{10FFFF}"', "\U0010FFFF"), ('"{}[]()$@!|&=:..."', "{}[]()$@!|&=:..."),
 ]
 BLOCKS = [
